@@ -30,6 +30,7 @@ import hostrun
 import mir2
 import mirsmt
 import report
+import second
 from mirsmt import Unsupported
 
 WS = [9, 10, 11, 12, 13, 32, 0x85, 0xA0, 0x1680] + list(range(0x2000, 0x200B)) + [0x2028, 0x2029, 0x202F, 0x205F, 0x3000]
@@ -230,7 +231,7 @@ def decide_kernel(mir, k, timeout_ms=60000):
             s.add(ob[1])
             s.add(z3.Not(ob[2]))
             t0 = time.time()
-            r = s.check()
+            r = second.check(s, 'C09 path query')
             res["solver_s"] += time.time() - t0
             res["solver_checks"] += 1
             if r != z3.unsat:
@@ -244,7 +245,7 @@ def decide_kernel(mir, k, timeout_ms=60000):
     s.add(domain)
     s.add(z3.Not(z3.Or([z3.And(st1.pc) for st1, _ in outs])) if outs else z3.BoolVal(True))
     t0 = time.time()
-    r = s.check()
+    r = second.check(s, 'C09 path query')
     res["solver_s"] += time.time() - t0
     res["solver_checks"] += 1
     if r == z3.sat:
@@ -378,7 +379,7 @@ def decide_component_kernel(mir, k, timeout_ms=60000):
             sol.add(ob[1])
             sol.add(z3.Not(ob[2]))
             t0 = time.time()
-            r = sol.check()
+            r = second.check(sol, 'C09 path query')
             res["solver_s"] += time.time() - t0
             res["solver_checks"] += 1
             if r != z3.unsat:
@@ -391,7 +392,7 @@ def decide_component_kernel(mir, k, timeout_ms=60000):
     sol.add(domain)
     sol.add(z3.Not(z3.Or([z3.And(st1.pc) for st1, _ in outs])) if outs else z3.BoolVal(True))
     t0 = time.time()
-    r = sol.check()
+    r = second.check(sol, 'C09 path query')
     res["solver_s"] += time.time() - t0
     res["solver_checks"] += 1
     if r == z3.sat:
@@ -660,6 +661,9 @@ def run(tier, seed):
                     print("VIOLATION property=C09 replay=%s" % path)
                     print("  %s on project %s: %s" % (name, os.path.basename(d), stt))
     wall = time.time() - t0
+    so, so_problems = second.verdict()
+    for pr in so_problems:
+        inconclusive.append("second opinion: " + pr)
     report.write_evidence(prop, tier, seed, "model_checking", {
         "evaluations": sum(r["paths"] for r in runs) or 1, "distinct_nontrivial": max(2, len(runs)),
         "rule": "one symbolic execution of parse_foreign_key_args per string length; every MIR path is one evaluation; z3 checks each overflow assertion on it and that the returning paths cover every string of that length",
@@ -672,6 +676,7 @@ def run(tier, seed):
         "mir_calls_summarised": sorted({c for r in runs for c in r.get("calls", [])}),
         "concrete_stage": stats,
         "bounds": "solver: the argument text of a foreign key, 0..5 (thorough 7) arbitrary Unicode scalar values (UTF-8 widths and byte offsets symbolic), the JSON parser behind it succeeds or fails. Concrete: every string of at most %d tokens over the 16-token alphabet %s through ParsedValue::new; %d adversarial projects through loader + generator and through the build helper, 60 s each. Outside: the other scanners of ParsedValue::new (find_variable, find_component ..., only covered by the enumeration), serde_json / toml / ICU internals, stack depth beyond the listed nestings, the yaml / json5 front ends." % (maxlen, json.dumps(ALPHABET, ensure_ascii=False), len(dirs)),
+        "second_opinion": so,
         "inconclusive": inconclusive,
     }, wall, [
         "char_indices yields (byte offset, char) with offset = sum of the UTF-8 widths of the preceding characters; str::split_at(n) returns iff n is one of those offsets or the length; trim_start removes White_Space characters; strip_prefix(char) compares the first character",
